@@ -19,8 +19,15 @@ Record dump := mkDump {
   d_type : edges;
 }.
 
+Definition is_struct (x : item) : bool :=
+  match it_kind x with KStructUnit | KStructPlain _ | KStructTuple _ => true | _ => false end.
+(* is_struct(x), !field(x, _) *)
+Definition is_leaf (d_field : edges) (x : item) : bool :=
+  is_struct x && negb (existsb (fun e => same_item (fst e) x) d_field).
+
 Definition gfacts (d : dump) : @facts gid :=
   mkFacts (map it_id (d_root d)) (map it_id (filter is_unit_struct (d_items d)))
+          (map it_id (filter (is_leaf (d_field d)) (d_items d)))
           (map gpair (d_field d)) (map gpair (d_variant d)) (map gpair (d_type d)).
 
 (* the part of the facts that one crate contributes (every relation is crate-local) *)
@@ -31,7 +38,7 @@ Definition crate_dump (d : dump) (c : string) : dump :=
          (filter (fun e => in_crate c (fst e)) (d_variant d))
          (filter (fun e => in_crate c (fst e)) (d_type d)).
 
-Definition dummy_item : item := mkItem ("", 0%N) None KOther false None None None.
+Definition dummy_item : item := mkItem ("", 0%N) None None KOther false None None None.
 Definition get (tbl : list item) (g : gid) : item :=
   match find (fun x => gid_eqb (it_id x) g) tbl with Some x => x | None => dummy_item end.
 Definition edges_of (tbl : list item) (G : list (gid * gid)) : edges :=
@@ -59,3 +66,104 @@ Definition fixture_ok (d : dump) (es : edges) (reg : registry) (crates : list st
   && closure_matches (closure gid_eqb (fuel_for d) (gfacts d) []) es
   && closure_matches (run_crates gid_eqb (fuel_for d) (map (fun c => gfacts (crate_dump d c)) crates)) es
   && closure_matches (run_crates gid_eqb (fuel_for d) (map (fun c => gfacts (crate_dump d c)) (rev crates))) es.
+
+(* ---------------------------------------------------------------- the trace predicate and the verdicts *)
+(* C20_ok: evaluated on a registry the IMPLEMENTATION returned for a transformed description, given
+   the registry it returned for the untransformed one.  Needs no model: equal registries, closedness
+   and contiguity are checked on the output. *)
+Definition C20_ok (base obs : registry) : bool :=
+  registry_eqb obs base && closed_mod_requestb obs && contiguousb obs.
+(* the one listed class: no type called Effect, so the fixed Request container dangles *)
+Definition known_request_without_effect (obs : registry) : bool := negb (has_key "Effect" obs).
+Definition C20_ok_strict (base obs : registry) : bool := C20_ok base obs && closedb obs.
+
+(* verdicts (CONTRIBUTING.md): 0 agree and C20_ok; 1 model <> implementation but C20_ok;
+   2 C20_ok fails outside the known classes; 100 + b: fails only inside the known classes whose bits
+   are set in b: 1 request_without_effect, 2 name_collision, 4 childless_enum_undefined,
+   8 nested_range_undefined, 16 renamed_type_reference *)
+Definition verdict_transform (model base : registry) (obs : option registry) : N :=
+  match obs with
+  | None => 2
+  | Some r =>
+    if negb (C20_ok base r) then 2
+    else if negb (closedb r) && negb (known_request_without_effect r) then 2
+    else if negb (registry_eqb model r) then 1
+    else if negb (closedb r) then 101 else 0
+  end%N.
+
+Definition pick_edges (all : edges) (picks : list nat) : edges := filter_map (nth_error all) picks.
+Definition covers (picks : list nat) (n : nat) : bool := forallb (fun i => existsb (Nat.eqb i) picks) (seq 0 n).
+
+(* real [format] on a chosen multiset of the real edges: variant indices must stay contiguous whatever
+   is dropped, and a multiset that covers all edges must give the description's registry *)
+Definition verdict_edges (all : edges) (base : registry) (picks : list nat) (obs : option registry) : N :=
+  match obs with
+  | None => 2
+  | Some r =>
+    if negb (contiguousb r) then 2
+    else if covers picks (List.length all) && negb (registry_eqb r base) then 2
+    else if registry_eqb (format (pick_edges all picks)) r then 0 else 1
+  end%N.
+
+Definition verdict_fixture (app : bool) (d : dump) (es : edges) (reg : registry) (crates : list string) : N :=
+  (if negb (contiguousb reg && closed_mod_requestb reg) then 2
+   else if negb (closedb reg) && (app || negb (known_request_without_effect reg)) then 2
+   else if negb (fixture_ok d es reg crates) then 1
+   else if negb (closedb reg) then 101 else 0)%N.
+
+(* the CLI's registry for a capability crate against the schema traced from the real serde impls *)
+Definition verdict_trace (es : edges) (real traced : registry) : N :=
+  (if negb (registry_eqb (remove_key "Request" real) traced) then 2
+   else if registry_eqb (remove_key "Request" (format es)) traced then 0 else 1)%N.
+
+(* ---------------------------------------------------------------- known classes of undefined references *)
+(* the type names a registry uses without defining them (the fixed Request container aside) *)
+Definition dangling (r : registry) : list string :=
+  flat_map (fun kc => if String.eqb (fst kc) "Request" then []
+                      else filter (fun s => negb (has_key s r)) (container_names (snd kc))) r.
+
+Definition is_enum_item (x : item) : bool := match it_kind x with KEnum _ => true | _ => false end.
+Definition fmt_mentions (s : string) (f : fmt) : bool := existsb (String.eqb s) (fmt_names f).
+
+(* class childless_enum_undefined: [s] is the Rust name of a reached enum none of whose variants is
+   present (no variants, or all skipped): the container rule for enums needs one variant edge *)
+Definition known_childless (es : edges) (s : string) : bool :=
+  existsb (fun e => opt_str_eqb (it_raw (snd e)) s && is_enum_item (snd e)
+                    && negb (existsb (fun e' => same_item (fst e') (snd e) && has_variant (fst e') (snd e')) es)) es.
+(* class nested_range_undefined: a present field mentions Range but is not itself a Range field
+   (Option<Range<T>>, Vec<Range<T>>, tuples): only direct Range fields produce the Range container *)
+Definition known_nested_range (es : edges) (s : string) : bool :=
+  String.eqb s "Range"
+  && existsb (fun e => has_field (fst e) (snd e)
+                       && match it_fmt (snd e), it_range (snd e) with Some f, None => fmt_mentions "Range" f | _, _ => false end) es.
+(* class renamed_type_reference: [s] is the Rust name of a reached type whose container is keyed by a
+   different serde(rename) name: references are formatted from the path, definitions from name() *)
+Definition known_renamed (es : edges) (s : string) : bool :=
+  existsb (fun e => opt_str_eqb (it_raw (snd e)) s && negb (opt_str_eqb (it_name (snd e)) s)
+                    && (is_struct (snd e) || is_enum_item (snd e))) es.
+
+Definition is_nil {A} (l : list A) : bool := match l with [] => true | _ => false end.
+Definition bit (b : bool) (n : N) : N := if b then n else 0%N.
+
+(* a synthetic description: the untransformed run (dump, edges, registry) and the registries of the
+   transformed runs *)
+Definition verdict_synth (d : dump) (es : edges) (base : registry) (crates : list string)
+                         (obs : list (option registry)) : N :=
+  let amb := negb (unambiguousb (containers es)) in
+  let all_same := forallb (fun o => match o with Some r => registry_eqb r base | None => false end) obs in
+  let dang := dangling base in
+  let explained := fun s => known_childless es s || known_nested_range es s || known_renamed es s in
+  let no_effect := known_request_without_effect base in
+  (if negb (contiguousb base) then 2
+   else if negb all_same && negb amb then 2
+   else if negb (forallb explained dang) then 2
+   else if negb (closedb base) && is_nil dang && negb no_effect then 2
+   else if negb (wf_edges es
+                 && closure_matches (closure gid_eqb (fuel_for d) (gfacts d) []) es
+                 && closure_matches (run_crates gid_eqb (fuel_for d) (map (fun c => gfacts (crate_dump d c)) crates)) es
+                 && closure_matches (run_crates gid_eqb (fuel_for d) (map (fun c => gfacts (crate_dump d c)) (rev crates))) es
+                 && (amb || registry_eqb (format es) base)) then 1
+   else let b := bit (negb (closedb base) && is_nil dang && no_effect) 1 + bit (amb && negb all_same) 2
+                 + bit (existsb (known_childless es) dang) 4 + bit (existsb (known_nested_range es) dang) 8
+                 + bit (existsb (known_renamed es) dang) 16 in
+        if N.eqb b 0 then 0 else 100 + b)%N.
